@@ -156,4 +156,43 @@ def v2Split : List Nat → Except FrameErr (Nat × List Nat)
   | [] => .error .emptyV2
   | f :: data => .ok (f % 2, data)
 
+/-! ## v2 frames with negotiated compression (`encode_v2` / `decode_payload_v2`)
+
+  `compressed` = `compression::compress(serialized, method)` and `decompress` are opaque
+  (lz4_flex): the model only decides WHICH bytes travel under WHICH flags byte. -/
+
+/-- `encode_v2`'s choice of `(flags, payload)`; `methodFlag` = `frame_flags(config.method)` -/
+def v2Choose (enabled : Bool) (minSize methodFlag : Nat) (serialized compressed : List Nat) :
+    Nat × List Nat :=
+  if enabled = true ∧ serialized.length ≥ minSize then
+    if compressed.length < serialized.length then (methodFlag, compressed) else (0, serialized)
+  else (0, serialized)
+
+/-- the whole `encode_v2` after serialisation -/
+def frameEncodeV2c (max : Nat) (enabled : Bool) (minSize methodFlag : Nat)
+    (serialized compressed : List Nat) : Except FrameErr (List Nat) :=
+  -- the receiver bounds the DECOMPRESSED payload by `max`: refuse what it would refuse
+  if serialized.length > max then .error .tooLarge
+  else
+    let (fl, pl) := v2Choose enabled minSize methodFlag serialized compressed
+    frameEncodeV2 max fl pl
+
+/-- pre-fix `encode_v2`: only the (possibly compressed) frame is checked against `max` -/
+def frameEncodeV2cOld (max : Nat) (enabled : Bool) (minSize methodFlag : Nat)
+    (serialized compressed : List Nat) : Except FrameErr (List Nat) :=
+  let (fl, pl) := v2Choose enabled minSize methodFlag serialized compressed
+  frameEncodeV2 max fl pl
+
+/-- `decode_payload_v2` up to the bitcode step: which bytes are handed to the deserialiser.
+    `decompress` is `compression::decompress(_, Lz4)` -/
+def v2Decode (decompress : List Nat → Option (List Nat)) (max : Nat) (payload : List Nat) :
+    Except FrameErr (List Nat) :=
+  match payload with
+  | [] => .error .emptyV2
+  | f :: data =>
+    let body := if f % 2 = 0 then some data else decompress data
+    match body with
+    | none => .error .shortRead            -- decompression failure (error kind not compared)
+    | some d => if d.length > max then .error .tooLarge else .ok d
+
 end Neumann.Codec
